@@ -607,7 +607,45 @@ Proof.
   split; [exact H1|]. split; [exact H2|]. apply pointwise_fill_sum_is_deletion.
 Qed.
 
+(* an OBSERVED target is an ordinary datum whatever its value - in particular when it equals the
+   fill value: the 'fill' term at an observed index is the pointwise term of that value *)
+Lemma pointwise_fill_observed fv (y : nvec) (g : car -> nat -> car) i x :
+  y i = Some x -> pointwise_fill fv y g i = g x i.
+Proof. intros H. unfold pointwise_fill, vals, is_obs. rewrite H. ring. Qed.
+
+(* the result of the 'fill' path does not depend on the fill value at all (entrywise) *)
+Lemma pointwise_fill_value_irrelevant fv fv' (y : nvec) (g : car -> nat -> car) i :
+  pointwise_fill fv y g i = pointwise_fill fv' y g i.
+Proof. unfold pointwise_fill, vals, is_obs. destruct (y i); ring. Qed.
+
+(* the value-comparison reading coincides with the code exactly when no observed target collides
+   with the fill value *)
+Lemma pointwise_fill_by_value_no_collision eqb fv (y : nvec) (g : car -> nat -> car) :
+  eqb fv fv = true -> (forall i x, y i = Some x -> eqb x fv = false) ->
+  forall i, pointwise_fill_by_value eqb fv y g i = pointwise_fill fv y g i.
+Proof.
+  intros Hr Hn i. unfold pointwise_fill_by_value, pointwise_fill, vals, is_obs.
+  destruct (y i) as [x|] eqn:E; [rewrite (Hn i x E)|rewrite Hr]; reflexivity.
+Qed.
+
 End Proofs.
+
+(* the value-comparison reading is NOT deletion: one observed target equal to the fill value
+   (-999), term g = 1: the deleted (= whole) data set sums to 1, the by-value reading to 0 *)
+Definition wit_fv : Qc := Q2Qc (-999 # 1).
+Definition wit_y_collide : @nvec QcF := fun i => if Nat.eqb i 0 then Some wit_fv else None.
+Lemma pointwise_fill_by_value_differs :
+  exists (n : nat) (fv : Qc) (y : @nvec QcF) (g : Qc -> nat -> Qc),
+    is_obs y O = true /\ y O = Some fv /\
+    @sum QcF n (@pointwise_fill_by_value QcF Qc_eq_bool fv y g)
+    <> @sum QcF (nobs n (is_obs y)) (@pointwise_del QcF n y g) /\
+    @sum QcF n (@pointwise_fill QcF fv y g) = @sum QcF (nobs n (is_obs y)) (@pointwise_del QcF n y g).
+Proof.
+  exists 1%nat, wit_fv, wit_y_collide, (fun _ _ => 1%Qc).
+  split; [reflexivity|]. split; [reflexivity|]. split.
+  - intros H. apply (f_equal this) in H. vm_compute in H. discriminate H.
+  - apply pointwise_fill_sum_is_deletion.
+Qed.
 
 (* ------------------------------------------------------------------ the masking is necessary (model of the OLD code) *)
 
